@@ -164,7 +164,8 @@ class TModel:
         d = dict(label=self.label,
                  sites=[(s.kind, str(s.dof), s.n, [list(q) for q in s.qn], s.omega) for s in self.sites])
         if self.lib_terms is None:
-            d["terms"] = [(float(f), [(int(i), s) for i, s in facs]) for f, facs in self.terms]
+            d["terms"] = [((float(f) if np.isreal(f) else [float(np.real(f)), float(np.imag(f))]), [(int(i), s) for i, s in facs])
+                          for f, facs in self.terms]
         d.update(self.extra)
         return d
 
@@ -259,6 +260,30 @@ def gen_eph_model(rng, nmol=None, two_qn=False, nmode_per_mol=None, nbas=None, i
                 terms.append((c, [(e_idx[a], r"a^\dagger"), (e_idx[b], "a")]))
                 terms.append((c, [(e_idx[a], "a"), (e_idx[b], r"a^\dagger")]))
     return TModel(sites, terms, "eph-2qn" if two_qn else "eph")
+
+
+def complexify(tm, rng):
+    """Peierls phases: every hopping pair  c s+_i s-_j + c s-_i s+_j  (or a+_i a_j + h.c.) becomes
+    c e^{i phi} . + c e^{-i phi} . ; the Hamiltonian stays Hermitian, its matrix becomes complex."""
+    terms, k, changed = [], 0, False
+    raising = {"sigma_+": "sigma_-", r"a^\dagger": "a"}
+    while k < len(tm.terms):
+        f, facs = tm.terms[k]
+        nxt = tm.terms[k + 1] if k + 1 < len(tm.terms) else None
+        if (nxt is not None and len(facs) == 2 and len(nxt[1]) == 2 and facs[0][1] in raising and facs[1][1] == raising[facs[0][1]]
+                and nxt[1][0] == (facs[0][0], facs[1][1]) and nxt[1][1] == (facs[1][0], facs[0][1]) and nxt[0] == f):
+            ph = complex(np.round(np.exp(1j * rng.uniform(0.3, 2.8)), 3))
+            terms.append((f * ph, facs))
+            terms.append((f * np.conj(ph), nxt[1]))
+            k += 2
+            changed = True
+        else:
+            terms.append((f, facs))
+            k += 1
+    if not changed:
+        return tm
+    out = TModel(tm.sites, terms, tm.label, extra=dict(tm.extra, complex_hopping=True))
+    return out
 
 
 # ----------------------------------------------------------------------------- fermions (reference)
